@@ -693,6 +693,9 @@ def fn(name, *args):
         s_, c_ = sincos(args[0])
         if not c_.zero():
             return s_ * inv(c_)
+    if name == 'atan' and len(args) == 1:
+        # atan x is the principal angle of the point (1, x): one symbol for both spellings
+        name, args = 'atan2', (args[0], ONE)
     k = ('fn', name, tuple(a.key() for a in args))
     if k not in CTX.bykey:
         CTX.bykey[k] = CTX.atom('%s(%s)' % (name, ', '.join(show(a, 6) for a in args)), ('fn', name, args))
